@@ -270,12 +270,15 @@ impl Rig {
         }
     }
 
-    fn new_batch(&self) -> (u64, Batch) {
+    /// Creates a batch; its epoch is the creation order. The `new` event is
+    /// recorded under the same lock so that the trace shows epochs in order.
+    fn new_batch(&self, cid: usize) -> (u64, Batch) {
         let mut e = self.next_epoch.lock();
         let wm = self.wm.lock();
         let b = wm.as_ref().expect("wm").new_write_batch();
         let ep = *e;
         *e += 1;
+        self.rec(json!({"e": "new", "c": cid, "b": ep}));
         (ep, b)
     }
 
@@ -482,8 +485,7 @@ fn spawn_client(rig: &Arc<Rig>, cid: usize) -> Client {
 async fn exec(rig: &Arc<Rig>, cid: usize, cmd: Cmd, batches: &mut BTreeMap<u64, Batch>) -> Value {
     match cmd {
         Cmd::New { b } => {
-            let (ep, wb) = rig.new_batch();
-            rig.rec(json!({"e": "new", "c": cid, "b": ep}));
+            let (ep, wb) = rig.new_batch(cid);
             batches.insert(b, wb);
             json!({"epoch": ep})
         }
@@ -940,8 +942,7 @@ fn par_one(id: u64, rng: &mut StdRng, p: &ParParams, panics: &Arc<AtomicU64>) ->
                 futures::executor::block_on(async {
                     let mut done = 0;
                     while done < ops && !rig.dead.load(Ordering::SeqCst) {
-                        let (ep, mut wb) = rig.new_batch();
-                        rig.rec(json!({"e": "new", "c": cid, "b": ep}));
+                        let (ep, mut wb) = rig.new_batch(cid);
                         let n = r.gen_range(1..5);
                         for _ in 0..n {
                             let k = r.gen_range(0..keys);
